@@ -155,7 +155,29 @@ pub fn run(report: &Report, thorough: bool) -> Evidence {
             befores.push(vec![a, b]);
         }
     }
-    let initials: Vec<Option<usize>> = vec![None, Some(0)];
+    // initial user files: (auto-correct document, learned-selection store present?)
+    let initials: Vec<Option<usize>> = vec![None, Some(0), None];
+    // a learned store with a non-first candidate for two of the words, probed from the real engine
+    let store: String = {
+        let mut o = ph(0b0010);
+        o.xdg = scratch_xdg("c11-store");
+        let mut c = Ctx::new(&o).expect("ctx");
+        c.with_pre = false;
+        let mut m = serde_json::Map::new();
+        for w in ["as", "k"] {
+            let _ = c.apply(&Ev::Finish);
+            let mut last = None;
+            for ch in w.chars() {
+                last = c.ch(ch).ok();
+            }
+            if let Some(r) = last {
+                if r.len() > 1 {
+                    m.insert(w.to_string(), json!(r.items()[1]));
+                }
+            }
+        }
+        serde_json::Value::Object(m).to_string()
+    };
     let edits: Vec<Edit> = vec![Edit::None, Edit::Write(0), Edit::Write(1), Edit::Write(2), Edit::Write(3), Edit::Remove];
     let conts: Vec<Vec<usize>> = vec![vec![0], vec![1], vec![2], vec![0, 1], vec![1, 0], vec![2, 0]];
 
@@ -180,15 +202,27 @@ pub fn run(report: &Report, thorough: bool) -> Evidence {
             if !phonetic_involved && (ii > 0) {
                 return;
             }
+            // a second (edit, update-engine) round after the first one, for the histories of <= 1 step
+            let second: Vec<Option<Edit>> = if phonetic_involved && befores[bi].len() <= 1 && c1.is_phonetic() && c2.is_phonetic() {
+                let mut v: Vec<Option<Edit>> = vec![None];
+                v.extend(edits.iter().skip(1).map(|e| Some(*e)));
+                v
+            } else {
+                vec![None]
+            };
             for (ei, edit) in edits.iter().enumerate() {
                 if !phonetic_involved && ei > 0 {
                     continue;
                 }
+              for edit2 in &second {
                 for cont in &conts {
                     // fresh directory state
                     crate::drv::clear_user_files(&c1);
                     if let Some(d) = initials[ii] {
                         write_ac(&c1, DOCS[d], 0);
+                    }
+                    if ii == 2 {
+                        std::fs::write(c1.selection_file(), &store).expect("store");
                     }
                     runs.fetch_add(1, Ordering::Relaxed);
                     let mut evs: Vec<Ev> = vec![];
@@ -219,6 +253,20 @@ pub fn run(report: &Report, thorough: bool) -> Evidence {
                     if let Err(f) = live.apply(&up) {
                         fail(&f, &evs);
                         continue;
+                    }
+                    if let Some(e2) = edit2 {
+                        match e2 {
+                            Edit::None => {}
+                            Edit::Write(d) => write_ac(&c1, DOCS[*d], 20),
+                            Edit::Remove => {
+                                let _ = std::fs::remove_file(c1.user_autocorrect_file());
+                            }
+                        }
+                        evs.push(up.clone());
+                        if let Err(f) = live.apply(&up) {
+                            fail(&f, &evs);
+                            continue;
+                        }
                     }
                     let store_after_update = std::fs::read(c1.selection_file()).ok();
                     let mut e_live = evs.clone();
@@ -252,14 +300,17 @@ pub fn run(report: &Report, thorough: bool) -> Evidence {
                                         .opts(&c1)
                                         .events(&e_live)
                                         .feat("edit", format!("{:?}", edit))
+                                        .feat("second_edit", format!("{:?}", edit2))
                                         .feat("initial_autocorrect", format!("{:?}", initials[ii].map(|d| DOCS[d])))
                                         .feat("new_flags", c2.flags())
                                         .feat("new_layout", c2.layout.clone())
                                         .detail(format!(
-                                            "initial user auto-correct {:?}, edit {:?} ({}), update to [{}] layout {}: rendering {} of the continuation is {} in the updated context but {} in a new one",
+                                            "initial user auto-correct {:?}{}, edit {:?} ({}){}, update to [{}] layout {}: rendering {} of the continuation is {} in the updated context but {} in a new one",
                                             initials[ii].map(|d| DOCS[d]),
+                                            if ii == 2 { format!(" and learned store {}", store) } else { String::new() },
                                             edit,
                                             if let Edit::Write(d) = edit { DOCS[*d] } else { "" },
+                                            match edit2 { Some(e) => format!(", update-engine, then edit {:?}", e), None => String::new() },
                                             c2.flags(),
                                             c2.layout,
                                             k,
@@ -277,6 +328,7 @@ pub fn run(report: &Report, thorough: bool) -> Evidence {
                         }
                     }
                 }
+              }
             }
         },
         |_| (),
@@ -288,7 +340,8 @@ pub fn run(report: &Report, thorough: bool) -> Evidence {
     ev.set("traces_validated_against_impl", runs.load(Ordering::Relaxed));
     ev.set("renderings_compared", rend_compared.load(Ordering::Relaxed));
     ev.set("configuration_pairs", pairs.len());
-    ev.set("initial_autocorrect_states", initials.len());
+    ev.set("initial_user_file_states", initials.len());
+    ev.set("second_edit_rounds_for_short_histories", edits.len());
     ev.set("histories_before_update", befores.len());
     ev.set("autocorrect_edits", edits.len());
     ev.set("continuations", conts.len());
